@@ -61,9 +61,9 @@ class C05(Engine):
         q = self.tier == "quick"
         out = []
         # small hand-written members first ...
-        for g in ("special_zoo", "special_odd", "special_literal", "special_clean", "special_notice"):
+        for g in ("special_zoo", "special_odd", "special_legal", "special_literal", "special_clean", "special_notice"):
             ids = P.groups.get(g, [])
-            if g in ("special_literal", "special_odd") and q:
+            if g in ("special_literal", "special_odd", "special_legal") and q:
                 r = core.derive_rng("c05." + g, self.seed, 0)
                 ids = sorted(r.sample(ids, 8))
             out += ids
